@@ -1,7 +1,6 @@
 package as
 
 import (
-	"sync/atomic"
 	"bufio"
 	"encoding/json"
 	"fmt"
@@ -10,6 +9,7 @@ import (
 	"os"
 	"strings"
 	"sync"
+	"sync/atomic"
 	"time"
 
 	"github.com/buzzfeed/sso/verifharness/world"
@@ -46,7 +46,11 @@ func (s *Site) runPair(n int, r *rand.Rand) []Line {
 			resps[i] = world.Do(s.A.Handler, world.NewReq("GET", authHost, targets[i], nil, []*http.Cookie{{Name: s.A.CookieName, Value: vals[i]}}, ""))
 		}(i)
 		if k == 0 {
-			time.Sleep(time.Duration(r.Intn(2500)) * time.Microsecond)
+			if r.Intn(3) == 0 {
+				wg.Wait() // back to back instead of at once: what the first check left behind must not answer for the second
+			} else {
+				time.Sleep(time.Duration(r.Intn(2500)) * time.Microsecond)
+			}
 		}
 	}
 	wg.Wait()
@@ -121,7 +125,11 @@ func (s *Site) runLoginPair(n int, r *rand.Rand) ([]Line, error) {
 			out[i] = res{o, conc, x}
 		}(i)
 		if k == 0 {
-			time.Sleep(gap)
+			if gap%3 == 0 {
+				wg.Wait() // back to back
+			} else {
+				time.Sleep(gap)
+			}
 		}
 	}
 	wg.Wait()
